@@ -66,6 +66,13 @@ def _c10(tier, seed):
     return ps + families.canaries_into(ps)
 
 
+def _c15(tier, seed):
+    ps = families.c15(tier, seed)
+    cs = families.canaries_eq([p for p in ps if "PartialEq" in p.focus and not p.tags.get("no_verus")]) \
+        + families.canaries_deref([p for p in ps if "DerefMut" in p.focus])
+    return ps + _retag(cs, "C15")
+
+
 def _c04_aux(job):
     from . import aux_c04
     aux_c04.run(job)
@@ -101,11 +108,11 @@ PROPS = {
         "explanation": "every member of a spelling group satisfies the single contract generated from the group's meaning; a mis-parsed spelling falls back to default behaviour and fails its postcondition",
     },
     "C15": {
-        "family": lambda tier, seed: families.c15(tier, seed),
-        "bounds": {"quick": "24 programs (structs and 2-3 variant enums, 1-3 fields of u8/u16/bool) educing all or a random subset (reordered, joined or split) of {Debug, PartialEq, Eq, PartialOrd, Ord, Hash, Clone, Default, Into(u16)}; every field draws an independent random attribute per trait (ignore/method/rank/rename/expression/marker)",
+        "family": lambda tier, seed: _c15(tier, seed),
+        "bounds": {"quick": "structured part: 20 single-trait field attributes (every carrier spelling) x named/tuple x struct/enum, all of {Debug, PartialEq, Eq, PartialOrd, Ord, Hash, Clone, Default} educed; packed part: 8 packed structs with an address-sensitive eq method with/without Copy/Clone; Deref part: 20 structs/enums educing Deref + DerefMut (markers on different same-typed fields that also carry another trait's attribute) next to PartialEq/Hash/Debug/Clone/PartialOrd; random part: 24 programs (structs and 2-3 variant enums, 1-3 fields of u8/u16/bool) educing all or a random subset (reordered, joined or split) of {Debug, PartialEq, Eq, PartialOrd, Ord, Hash, Clone, Default, Into(u16)}; every field draws an independent random attribute per trait (ignore/method/rank/rename/expression/marker)",
                    "thorough": "120 programs"},
         "trusted": [], "assumptions": ["weaker than stated: each trait's contract is generated from that trait's attributes alone and must hold whatever the other traits carry; token-level 'impl unchanged' is not decided",
-                                       "seeded pseudo-random family (VERIF_SEED); no must-fail canary of its own (the emitters' canaries run under C02-C10)"],
+                                       "the random part is a seeded pseudo-random family (VERIF_SEED); must-fail canaries: PartialEq (2) and Deref (2) members with a mutated meaning"],
         "explanation": "per-trait contracts under adversarial attributes of every other trait on the same fields",
     },
     "C17": {
